@@ -4559,7 +4559,7 @@ class Wallet(object):
         else:
             pm_list = []
             for cs in self.cosigner:
-                pm_list.append(cs.public_master(account_id, name, as_private, network))
+                pm_list.append(cs.public_master(account_id, name, as_private, witness_type, network))
             return pm_list
 
     def transaction_load(self, txid=None, filename=None):
